@@ -51,7 +51,7 @@ CLAIMED.update({
          T4 + " Takeover histories are outside the claim and not generated.", "§5 C16"),
  "C17": (E4, MB + "; per-group delivery set oracle)",
          "Histories with 1-2 shared groups, 3-5 clean-session members joining/leaving/dropping, bursts, ack pacing, three strategies: a message is forwarded through a group at most once, only to a client that was a member between acceptance and delivery, each member's share in acceptance order; completeness at idle for round-robin groups that never emptied. Exploration only.",
-         T4 + " Known region R10 (parked member stall) excluded from the completeness clause and probed; R11 and R14 were repaired in /repo (R14: focused campaign with one share name on two filters).", "§5 C17"),
+         T4 + " R10 (parked member stall), R11 and R14 were repaired in /repo (R14: focused campaign with one share name on two filters).", "§5 C17"),
 })
 
 E6 = "E6 clientstate"
